@@ -43,6 +43,11 @@ def get_file_metadata(path, hashes):
     except FileNotFoundError:
         exists = False
         opened = False
+    except ValueError:
+        # a name with an embedded NUL, or one that cannot be encoded
+        # for the filesystem, cannot name an existing file
+        exists = False
+        opened = False
     except OSError as err:
         if err.errno in (errno.ENXIO, errno.EOPNOTSUPP):
             # ENXIO = unconnected device or socket
